@@ -41,6 +41,7 @@ func bzWrite(level int, data []byte, splits []int) ([]byte, error) {
 func execBzw(o *Out, id, line string) {
 	_, kv := parseLine(line)
 	data := unhx(kv["in"])
+	edgeAt, edgeRun := -1, 0
 	if g := kv["gen"]; g != "" { // large inputs are described, not spelled out
 		f := strings.Split(g, ":")
 		n, _ := strconv.Atoi(f[1])
@@ -49,6 +50,30 @@ func execBzw(o *Out, id, line string) {
 		data = make([]byte, n)
 		for i := range data {
 			data[i] = byte(rr.U64())
+		}
+		if f[0] == "edge" {
+			// run-free bytes up to k bytes before the level's block limit, then a run of m equal
+			// bytes, then a tail: the RLE1 block buffer fills up inside or right at the run
+			lvl, _ := strconv.Atoi(kv["level"])
+			k, _ := strconv.Atoi(f[3])
+			m, _ := strconv.Atoi(f[4])
+			n = lvl*100000 - k
+			data = make([]byte, 0, n+m+40)
+			prev := byte(0x5a)
+			for len(data) < n {
+				b := byte(rr.U64())
+				if b == prev || b == 0x5a {
+					continue
+				}
+				data = append(data, b)
+				prev = b
+			}
+			for i := 0; i < m; i++ {
+				data = append(data, 0x5a)
+			}
+			data = append(data, "tail-of-the-input"...)
+			edgeAt, edgeRun = n, m
+			f = f[:3]
 		}
 		// a run of equal bytes placed around the block limit
 		if len(f) > 4 {
@@ -94,6 +119,22 @@ func execBzw(o *Out, id, line string) {
 	}
 	if got, e := dsnetBunzipAll(out); e != nil || !bytes.Equal(got, data) {
 		o.Violate("C04", fmt.Sprintf("bzip2.Reader on the Writer's output: err=%v equal=%v", e, bytes.Equal(got, data)), "dec-dsnet", line)
+		if g2, e2 := libBunzipAll(out); e2 == nil && bytes.Equal(g2, data) {
+			o.Violate("C03", fmt.Sprintf("bzip2.Reader rejects or misreads a stream libbzip2 decodes correctly: err=%v equal=%v", e, bytes.Equal(got, data)), "writer-stream-rejected", line)
+		}
+	}
+	// split points inside and around a run that meets the block limit
+	for j := -1; edgeAt >= 0 && j <= edgeRun+1; j++ {
+		o.Count("edge-split")
+		_, p := catch(func() {
+			out2, err2 := bzWrite(level, data, []int{edgeAt + j, 0})
+			if err2 != nil || !bytes.Equal(out2, out) {
+				o.Violate("C04", fmt.Sprintf("a Write boundary %d bytes into the run at the block limit changes the output (err=%v)", j, err2), "split-dependent-at-limit", line)
+			}
+		})
+		if p != nil {
+			o.Violate("C04", fmt.Sprintf("bzip2.Writer panicked with a Write boundary %d bytes into the run at the block limit: %v", j, p), "writer-panic", line)
+		}
 	}
 	// split independence
 	if len(data) > 0 {
@@ -175,12 +216,31 @@ func genBzw(r *Rand, tier string, emit func(string)) {
 	if thorough {
 		emit(fmt.Sprintf("bzw level=2 gen=rnd:%d:%d", 430000, 77))
 	}
+	// full blocks of incompressible data at level 1 (a block of exactly 100000 symbols
+	// happens for about one in four of them)
+	nfull := 10
+	if thorough {
+		nfull = 60
+	}
+	for i := 0; i < nfull; i++ {
+		emit(fmt.Sprintf("bzw level=1 gen=rnd:%d:%d", 150000+r.Intn(100), r.U64()%1000000))
+	}
+	// the block limit meets a run: k run-free bytes short of the limit, then m equal bytes
+	ks, ms := []int{0, 1, 2, 3, 4, 5}, []int{2, 3, 4, 5, 8, 12}
+	if thorough {
+		ks, ms = []int{0, 1, 2, 3, 4, 5, 6, 7, 8}, []int{1, 2, 3, 4, 5, 6, 7, 8, 12, 259, 260, 300}
+	}
+	for _, k := range ks {
+		for _, m := range ms {
+			emit(fmt.Sprintf("bzw level=%d gen=edge:0:%d:%d:%d", 1+r.Intn(2)*(k%2), r.U64()%1000000, k, m))
+		}
+	}
 }
 
 func init() {
 	register(&Family{
 		Name: "bzw",
-		Rule: "bzip2.Writer: invalid and valid levels; random inputs up to 6000 bytes of several textures, long runs (RLE1 counts, the 255+4 cap), 1-3 symbol alphabets, shuffled Fibonacci frequency profiles that force 20-bit length limiting, random Write splits incl. empty writes; ~100 KB random inputs with a run of 1-300 equal bytes placed within 310 bytes of the level-1 block limit. The emitted bytes are compared with the Lean model (rotation-sort BWT) and decoded by libbzip2, compress/bzip2 and this package's Reader; a second, differently split run must emit identical bytes. Distinct by input",
+		Rule: "bzip2.Writer: invalid and valid levels; random inputs up to 6000 bytes of several textures, long runs (RLE1 counts, the 255+4 cap), 1-3 symbol alphabets, shuffled Fibonacci frequency profiles that force 20-bit length limiting, random Write splits incl. empty writes; ~100 KB random inputs with a run of 1-300 equal bytes placed within 310 bytes of the level-1 block limit; 150 KB incompressible inputs at level 1 (full blocks of exactly 100000 symbols); run-free inputs that stop 0-5 bytes short of the block limit followed by a run of 2-12 equal bytes, written in one call and with a Write boundary at every position of the run. The emitted bytes are compared with the Lean model (rotation-sort BWT) and decoded by libbzip2, compress/bzip2 and this package's Reader; a second, differently split run must emit identical bytes. Distinct by input",
 		Gen:  genBzw,
 		Exec: execBzw,
 	})
